@@ -7,6 +7,7 @@ import (
 	"encoding/base64"
 	"encoding/json"
 	"fmt"
+	gzipenc "google.golang.org/grpc/encoding/gzip"
 	"io"
 	"net/http"
 	"net/url"
@@ -60,6 +61,7 @@ type Case struct {
 	Msg       string   `json:"msg"`
 	Details   []Detail `json:"details"`
 	After     int      `json:"after"` // replies sent before the error (server streaming); -1 = unary method
+	Gzip      bool     `json:"gzip"`  // gRPC family: the call negotiates per-message gzip (request and replies compressed)
 }
 
 var (
@@ -285,11 +287,15 @@ func Check(c Case) []evid.Violation {
 		req := dynamicpb.NewMessage(w.MsgDesc("un.All"))
 		var err error
 		nreplies := 0
+		var copts []grpc.CallOption
+		if c.Gzip {
+			copts = append(copts, grpc.UseCompressor(gzipenc.Name))
+		}
 		if c.After < 0 {
-			err = real.CC.Invoke(ctx, method, req, dynamicpb.NewMessage(w.MsgDesc("un.All")))
+			err = real.CC.Invoke(ctx, method, req, dynamicpb.NewMessage(w.MsgDesc("un.All")), copts...)
 		} else {
 			var cs grpc.ClientStream
-			cs, err = real.CC.NewStream(ctx, &grpc.StreamDesc{ServerStreams: true}, method)
+			cs, err = real.CC.NewStream(ctx, &grpc.StreamDesc{ServerStreams: true}, method, copts...)
 			if err == nil {
 				if err = cs.SendMsg(req); err == nil {
 					err = cs.CloseSend()
@@ -318,6 +324,10 @@ func Check(c Case) []evid.Violation {
 	case "grpcweb", "grpcwebtext":
 		hdr := http.Header{}
 		reqBody := grpcFrame()
+		if c.Gzip {
+			hdr.Set("Grpc-Encoding", "gzip")
+			reqBody = drive.GRPCFrame([]byte{0x18, 0x07}, true)
+		}
 		if c.Transport == "grpcwebtext" {
 			hdr.Set("Content-Type", "application/grpc-web-text+proto")
 			reqBody = []byte(base64.StdEncoding.EncodeToString(reqBody))
@@ -488,6 +498,9 @@ func genCase(t *rapid.T, transports []string) Case {
 		c.Msg, c.Details = "", nil // OK carries neither message nor details
 	}
 	c.After = rapid.SampledFrom([]int{-1, -1, 0, 0, 1, 3}).Draw(t, "after")
+	if strings.HasPrefix(c.Transport, "grpc") {
+		c.Gzip = rapid.IntRange(0, 2).Draw(t, "gzip") == 0
+	}
 	if c.Transport == "ws" && c.After < 0 {
 		c.After = 0
 	}
@@ -521,8 +534,11 @@ func record(c Case) {
 	if len(c.Msg) > 123 {
 		cl = append(cl, "long-message")
 	}
+	if c.Gzip {
+		cl = append(cl, "gzip-negotiated")
+	}
 	if needsEsc || len(c.Details) > 0 || c.Code > 16 || c.After > 0 {
-		key = fmt.Sprintf("%s|%d|%q|%v|%d", c.Transport, c.Code, c.Msg, c.Details, c.After)
+		key = fmt.Sprintf("%s|%d|%q|%v|%d|%v", c.Transport, c.Code, c.Msg, c.Details, c.After, c.Gzip)
 	}
 	evid.Eval(key, cl...)
 }
